@@ -74,7 +74,7 @@ func liesCatalogue() []liesItem {
 	for a := 0; a < 2; a++ {
 		out = append(out, liesItem{"relay-header", "hostile-timestamp", "plain", "", 10 + a}, liesItem{"relay-header", "hostile-timestamp", "instant", "", 10 + a})
 	}
-	for a := 0; a < hostileV2Variants+hostileV1Variants; a++ {
+	for a := 0; a < p2px.HostileV2Variants+p2px.HostileV1Variants; a++ {
 		out = append(out, liesItem{"relay-outline", "hostile-embedded", "plain", "", 9 + a}) // 9 = one round of the variants: arg 0 and 1 are taken by key()
 	}
 	out = append(out, liesItem{"relay-outline", "hostile-embedded", "instant", "", 9})
@@ -82,17 +82,26 @@ func liesCatalogue() []liesItem {
 		out = append(out, liesItem{"relay-outline", "hostile-missing", "plain", "", 4 + a})
 	}
 	out = append(out, liesItem{"relay-outline", "hostile-missing", "instant", "", 4})
-	for a := 0; a < 5; a++ {
-		out = append(out, liesItem{"relay-outline", "hostile-field", "plain", "", 5 + a})
+	for a := 0; a < 6; a++ {
+		out = append(out, liesItem{"relay-outline", "hostile-field", "plain", "", 6 + a})
 	}
-	for a := 0; a < hostileV2Variants; a++ {
+	for a := 0; a < 6; a++ {
+		out = append(out, liesItem{"relay-request", "hostile-numbers", []string{"plain", "instant"}[a%2], "", 6 + a})
+	}
+	for a := 0; a < p2px.HostileV2Variants; a++ {
 		// variant a, basis tip / parent / three back in turn
-		out = append(out, liesItem{"relay-txset", "hostile-txn", "plain", "", hostileV2Variants*(3+a%3) + a})
+		out = append(out, liesItem{"relay-txset", "hostile-txn", "plain", "", p2px.HostileV2Variants*(3+a%3) + a})
 	}
-	out = append(out, liesItem{"relay-txset", "hostile-txn", "instant", "", hostileV2Variants * 3})
+	out = append(out, liesItem{"relay-txset", "hostile-txn", "instant", "", p2px.HostileV2Variants * 3})
 	for a := 0; a < 4; a++ {
 		out = append(out, liesItem{"relay-txset", "hostile-basis", "plain", "", 8 + a + 4*(a%2)}) // benign / hostile set in turn
 	}
+	// ... and in a block body served under its unchanged v2 id: what the sync
+	// goroutines (outside any handler) do with it; arg = position + 16*variant
+	for _, v := range []int{1, 3, 4, 7, 8} {
+		out = append(out, liesItem{"blocks", "hostile-body", "plain", "", 9 + 16*v})
+	}
+	out = append(out, liesItem{"blocks", "hostile-body", "instant", "", 4 + 16*3}, liesItem{"blocks", "hostile-body", "instant", "", 4 + 16*8})
 	for _, regime := range []string{"plain", "instant"} {
 		batch := liesChainLen
 		if regime == "instant" {
@@ -223,7 +232,7 @@ func liesCase(it liesItem) C11Case {
 	return c
 }
 
-const liesRule = "enumerated lie catalogue: every (RPC, lie kind) of the Byzantine peer × regime {plain: 12-block chain crossing the allow (4) and require (7) heights, victim at genesis, AddBlocks path; instant: v2-only chain, victim bootstrapped with RetrieveCheckpoint at height 3 (asked from the liar first), SendCheckpoint + per-block validation + AddValidatedV2Blocks path} × position of the lie in the batch {first, middle, last} where a position applies (SendHeaders: broken link / low work / old timestamp / duplicate; SendV2Blocks: swapped / dropped body, reorder), the four state fields of the checkpoint state lie; SendCheckpoint lies for the instant regime only (the RPC is not issued on the plain path). One fixed-shape cluster per entry (1 honest peer joining 1.5 s after the liar, 1 liar claiming the honest chain, every block carries transactions, an invalid and a valid transaction-carrying child of the tip for the outline lies); same oracle as TestC11 (audits, tip work, Ban assertions where certain, convergence to the honest chain, stall window). An entry whose lie was not delivered is counted inconclusive:lie-not-reached (printed), never a violation; counters lies_enumerated / lies_delivered give delivered/total. Non-trivial = the lie was delivered."
+const liesRule = "enumerated lie catalogue: every (RPC, lie kind) of the Byzantine peer × regime {plain: 12-block chain crossing the allow (4) and require (7) heights, victim at genesis, AddBlocks path; instant: v2-only chain, victim bootstrapped with RetrieveCheckpoint at height 3 (asked from the liar first), SendCheckpoint + per-block validation + AddValidatedV2Blocks path} × position of the lie in the batch {first, middle, last} where a position applies (SendHeaders: broken link / low work / old timestamp / duplicate; SendV2Blocks: swapped / dropped body, reorder), the four state fields of the checkpoint state lie; SendCheckpoint lies for the instant regime only (the RPC is not issued on the plain path). Hostile-constant kinds are enumerated by variant (56 entries). One fixed-shape cluster per entry (1 honest peer joining 1.5 s after the liar, 1 liar claiming the honest chain, every block carries transactions, an invalid and a valid transaction-carrying child of the tip for the outline lies); same oracle as TestC11 (audits, tip work, Ban assertions where certain, convergence to the honest chain, stall window). An entry whose lie was not delivered is counted inconclusive:lie-not-reached (printed), never a violation; counters lies_enumerated / lies_delivered give delivered/total. Non-trivial = the lie was delivered."
 
 // TestC11Lies runs the enumerated stage; shards split the catalogue round
 // robin (VERIF_SHARD / VERIF_SHARDS).
@@ -251,6 +260,9 @@ func TestC11Lies(t *testing.T) {
 		err := kit.Prop[C11Case]{ID: "C11", Run: func(c C11Case, cs *kit.CaseStats) error { return runC11x(c, cs, &info) }}.SafeRun(c, cs)
 		cs.Add("lies_enumerated", 1)
 		cs.Class("enumerated:" + it.Regime)
+		if info.Panics > 0 {
+			cs.Class("handler-panic-recovered:" + it.key())
+		}
 		if err == nil {
 			if (len(info.Delivered) == 1 && info.Delivered[0]) || (c.Slow != nil && info.SlowHeld) || (c.Synth != nil && info.SynthReached) {
 				cs.Add("lies_delivered", 1)
